@@ -64,3 +64,84 @@ def find(run, failure):
     if 'push_lnotab' in failure["key"]:
         return find_lnotab(run, failure)
     return {"found": False, "note": "no replay for this function (private bookkeeping primitive of the generator; would need a hook)"}
+
+
+# ---------------------------------------------------------------------------------------------------------------------------
+# Bounded exploration of what the contracts assume (NOT counted as proved): the emitters' stack effects, jump targets and index
+# ranges. Programs are compiled by the REAL compiler built from the tree under check and every code object of the .pyc is
+# validated structurally under the target interpreter (units/C14/pyc_validate.py: CPython's own dis / dis.stack_effect as oracle).
+import glob
+import json
+import re
+import shutil
+import tempfile
+
+HERE = os.path.dirname(os.path.abspath(__file__))
+VALIDATOR = os.path.join(HERE, 'pyc_validate.py')
+PROBES = os.path.join(HERE, 'probes')
+
+
+def _problem_class(msg):
+    """stable class of a validator message (numbers removed) -> part of the finding key"""
+    m = msg.split(': ', 1)[-1]
+    m = re.sub(r'offset \d+ ', '', m)
+    m = re.sub(r'\d+', 'N', m)
+    return m[:90]
+
+
+def explore_pyc(run):
+    erg = build_erg(run)
+    quick = run.tier != 'thorough'
+    minors = [11, 9] if quick else [11, 10, 9, 8, 7]
+    probes = sorted(glob.glob(os.path.join(PROBES, '*.er')))
+    corpus = sorted(glob.glob(os.path.join(run.repo, 'tests', 'should_ok', '*.er')) + glob.glob(os.path.join(run.repo, 'examples', '*.er')))
+    work = tempfile.mkdtemp(prefix='pyc-', dir=run.scratch)
+    findings = []
+    n_files = n_objects = 0
+    skipped = []
+    for minor in minors:
+        py = cpython.find_interpreter(minor)
+        if not py:
+            skipped.append("3.%d (no interpreter)" % minor)
+            continue
+        files = probes + (corpus if (not quick or minor == 11) else [])
+        for f in files:
+            d = tempfile.mkdtemp(dir=work)
+            dst = os.path.join(d, os.path.basename(f))
+            shutil.copy(f, dst)
+            try:
+                subprocess.run([erg, '--py-command', py, 'compile', dst], capture_output=True, text=True, timeout=180, cwd=os.path.dirname(f))
+            except subprocess.TimeoutExpired:
+                findings.append({"key": "3.%d|%s|compiler|did not terminate" % (minor, os.path.basename(f)), "verdict": "the compiler did not finish within 180 s", "input": {"file": f}})
+                continue
+            pyc = dst[:-3] + '.pyc'
+            if not os.path.exists(pyc):
+                shutil.rmtree(d, ignore_errors=True)
+                continue   # rejected by the checker for this target: nothing emitted
+            n_files += 1
+            n_lines = len(open(f, encoding='utf-8').read().split('\n'))
+            q = subprocess.run([py, VALIDATOR, pyc, str(n_lines)], capture_output=True, text=True, timeout=120)
+            try:
+                j = json.loads(q.stdout.strip().split('\n')[-1])
+            except Exception:
+                findings.append({"key": "3.%d|%s|validator|crashed" % (minor, os.path.basename(f)), "verdict": "validator crashed: " + q.stderr[-200:], "input": {"file": f}})
+                continue
+            n_objects += j.get("objects", 0)
+            seen = set()
+            for pr in j.get("problems", []):
+                obj = pr.split(': ', 1)[0]
+                if obj in seen:
+                    continue       # one finding per code object (the first problem)
+                seen.add(obj)
+                findings.append({"key": "3.%d|%s|%s|%s" % (minor, os.path.basename(f), obj, _problem_class(pr)),
+                                 "verdict": "Python 3.%d, %s: %s" % (minor, os.path.basename(f), pr),
+                                 "how": "compiled by the real compiler (built from the tree under check) for that target; validated under that interpreter with dis / dis.stack_effect",
+                                 "input": {"file": f, "target": "3.%d" % minor}, "oracle": "CPython's dis and dis.stack_effect (structural validity of a code object)",
+                                 "replay_cmd": "%s --py-command %s compile %s && %s %s %s %d" % (erg, py, f, py, VALIDATOR, os.path.basename(f)[:-3] + '.pyc', n_lines)})
+            shutil.rmtree(d, ignore_errors=True)
+    shutil.rmtree(work, ignore_errors=True)
+    run.extra["bounded_pyc_structure_check"] = {"targets": ["3.%d" % m for m in minors], "files_compiled": n_files, "code_objects_validated": n_objects,
+        "probes": [os.path.basename(p) for p in probes], "corpus": "tests/should_ok/*.er + examples/*.er (%d files; quick tier: on 3.11 only)" % len(corpus),
+        "skipped": skipped,
+        "checked": "jump targets on instruction boundaries; const/name/local/free indices in range; reachable operand-stack depth (CFG, dis.stack_effect) within [0, co_stacksize] (3.8+); line table inside the source file"}
+    return {"found": bool(findings), "findings": findings, "note": "%d files, %d code objects, %d findings" % (n_files, n_objects, len(findings))}
